@@ -32,7 +32,11 @@ Single == {[kind |-> "clip", lines |-> <<l>>, ml |-> FALSE, poly |-> P] : l \in 
 Apart(a, b) == \A i \in 1..(Len(a) - 1), j \in 1..(Len(b) - 1) : ~SegsMeet(a[i], a[i + 1], b[j], b[j + 1])
 PairHash(q) == (HashL(q[1], 1) * 31 + 7 * HashL(q[2], 1)) % 1009
 MPairs == TLCEval({q \in L2 \X (L2 \cup L3) : PairHash(q) % MM = 0 /\ Apart(q[1], q[2])})
-MTriples == TLCEval({<<q[1], q[2], l>> : q \in {x \in MPairs : PairHash(x) % (3 * MM) = 0}, l \in {y \in L2 : HashL(y, 1) % 5 = 0}})
+(* (the pool of third members holds about thirty lines in either tier; the dense tier keeps every tenth combination, the other every fourth) *)
+Third == TLCEval({y \in L2 : HashL(y, 1) % ((480 \div M2) \div 6) = 0})
+K3 == IF M2 < 6 THEN 10 ELSE 4
+MTriples == TLCEval({t \in {<<q[1], q[2], l>> : q \in {x \in MPairs : PairHash(x) % (3 * MM) = 0}, l \in Third} :
+                       (HashL(t[1], 1) + 3 * HashL(t[2], 1) + (HashL(t[3], 1) \div 40)) % K3 = 0})
 Multi == {[kind |-> "clip", lines |-> <<p[1], p[2]>>, ml |-> TRUE, poly |-> P] : p \in MPairs, P \in Polys}
          \cup {[kind |-> "clip", lines |-> t, ml |-> TRUE, poly |-> P] :          \* three members: more members than most polygons have rings
                   t \in {x \in MTriples : Apart(x[1], x[3]) /\ Apart(x[2], x[3])}, P \in Polys}
